@@ -130,7 +130,8 @@ def load():
 def lex_one(fn, h):
     """('ok'|'exc'|'badinput', hex bytes | exception type name | '')"""
     try:
-        src = bytes.fromhex(h).decode("utf-8")
+        # "surrogatepass": a Python str may hold lone surrogates (e.g. text read with errors="surrogateescape")
+        src = bytes.fromhex(h).decode("utf-8", "surrogatepass")
     except ValueError:
         return "badinput", ""
     try:
@@ -227,6 +228,83 @@ def records(timeout):
     return 0
 
 
+def mp_decode(b, i=0):
+    """minimal msgpack reader for what the binding writes (nil, bool, ints, f64, str, bin, arrays)"""
+    t = b[i]
+    if t <= 0x7f: return t, i + 1
+    if t >= 0xe0: return t - 256, i + 1
+    if 0x90 <= t <= 0x9f: n, i = t & 15, i + 1
+    elif t == 0xdc: n, i = int.from_bytes(b[i + 1:i + 3], "big"), i + 3
+    elif t == 0xdd: n, i = int.from_bytes(b[i + 1:i + 5], "big"), i + 5
+    else:
+        n = None
+    if n is not None:
+        xs = []
+        for _ in range(n):
+            x, i = mp_decode(b, i)
+            xs.append(x)
+        return xs, i
+    if t == 0xc0: return None, i + 1
+    if t == 0xc2: return False, i + 1
+    if t == 0xc3: return True, i + 1
+    for code, w, signed in ((0xcc, 1, False), (0xcd, 2, False), (0xce, 4, False), (0xcf, 8, False),
+                            (0xd0, 1, True), (0xd1, 2, True), (0xd2, 4, True), (0xd3, 8, True)):
+        if t == code:
+            return int.from_bytes(b[i + 1:i + 1 + w], "big", signed=signed), i + 1 + w
+    if t == 0xcb:
+        import struct
+        return struct.unpack(">d", b[i + 1:i + 9])[0], i + 9
+    if 0xa0 <= t <= 0xbf: n, i = t & 31, i + 1
+    elif t in (0xc4, 0xd9): n, i = b[i + 1], i + 2
+    elif t in (0xc5, 0xda): n, i = int.from_bytes(b[i + 1:i + 3], "big"), i + 3
+    elif t in (0xc6, 0xdb): n, i = int.from_bytes(b[i + 1:i + 5], "big"), i + 5
+    else:
+        raise ValueError(f"msgpack type {t:#x}")
+    return bytes(b[i:i + n]), i + n
+
+
+def py_fields():
+    """declared field order of the Python Token class (what msgspec decodes into, positionally)"""
+    import ast
+    path = os.path.join(os.environ.get("VERIF_REPO", "/repo"), "src/sas_lexer/token.py")
+    tree = ast.parse(open(path, encoding="utf-8").read())
+    cd = [n for n in tree.body if isinstance(n, ast.ClassDef) and n.name == "Token"][0]
+    return [n.target.id for n in cd.body if isinstance(n, ast.AnnAssign)]
+
+
+def surrogates(timeout):
+    """Python-level contract on sources that only Python can express (lone surrogates): whenever a result is
+    returned, `source[token.start:token.stop]` must tile the Python string.  One verdict line per input."""
+    names = py_fields()
+    i_start, i_stop = names.index("start"), names.index("stop")
+    out = sys.stdout
+    for h, st, payload in lex_lines(sys.stdin, timeout):
+        if st != "ok":
+            out.write(f"{st}\n")
+            continue
+        src = bytes.fromhex(h).decode("utf-8", "surrogatepass")
+        try:
+            res, _ = mp_decode(bytes.fromhex(payload))
+            toks = res[0]
+            pos = 0
+            ok = bool(toks)
+            for k, t in enumerate(toks):
+                a, b = t[i_start], t[i_stop]
+                if k == 0 and src[:1] == "\ufeff":
+                    pos = a if a == 1 else -1
+                if a != pos or b < a or b > len(src):
+                    ok = False
+                    break
+                pos = b
+            ok = ok and pos == len(src)
+        except Exception as e:
+            out.write(f"fail decode:{type(e).__name__}\n")
+            continue
+        out.write("ok\n" if ok else "fail tiling\n")
+    out.flush()
+    return 0
+
+
 def main():
     a = sys.argv[1:]
     if a[:1] == ["build"]:
@@ -236,6 +314,8 @@ def main():
         return run(timeout)
     if a == ["records"]:
         return records(timeout)
+    if a == ["surrogates"]:
+        return surrogates(timeout)
     if a == ["_worker"]:
         return worker()
     sys.stderr.write(__doc__)
